@@ -80,7 +80,7 @@ type childRow struct {
 	Printed  string           `json:"printed,omitempty"`
 }
 
-var viewNames = []string{"ss", "sd", "ds", "ps", "sp"}
+var viewNames = []string{"ss", "sd", "ds", "ps", "sp", "ii", "si", "is"}
 
 // --- child: everything that calls the code under test --------------------------
 
@@ -182,7 +182,16 @@ func child(path string) {
 	S := make([]types.Type, n) // one object per name, shared by all terms of the universe
 	D := make([]types.Type, n) // objects of its own for every term and every top-level occurrence
 	P := make([]types.Type, n) // printed and parsed back
+	// I: every type of the universe interned -- one Go object per type, the package singletons
+	// (types.I32, types.Double, types.I8Ptr, ...) for the leaves, so that different terms share
+	// their element / field / parameter objects (S and D allocate every occurrence afresh)
+	I := make([]types.Type, n)
+	interned := map[string]*tyutil.Builder{}
+	for u, uni := range in.Universes {
+		interned[u] = tyutil.NewInternBuilder(uni)
+	}
 	for i, it := range in.Items {
+		I[i] = interned[it.U].Type(it.T)
 		S[i] = shared[it.U].Type(it.T)
 		D[i] = tyutil.NewBuilder(in.Universes[it.U], true).Type(it.T)
 	}
@@ -228,7 +237,8 @@ func child(path string) {
 			if in.Items[j].U != in.Items[i].U {
 				continue
 			}
-			pairs := map[string][2]types.Type{"ss": {S[i], S[j]}, "sd": {S[i], D[j]}, "ds": {D[i], S[j]}, "ps": {P[i], S[j]}, "sp": {S[i], P[j]}}
+			pairs := map[string][2]types.Type{"ss": {S[i], S[j]}, "sd": {S[i], D[j]}, "ds": {D[i], S[j]}, "ps": {P[i], S[j]}, "sp": {S[i], P[j]},
+				"ii": {I[i], I[j]}, "si": {S[i], I[j]}, "is": {I[i], S[j]}}
 			for _, v := range viewNames {
 				xy := pairs[v]
 				if xy[0] == nil || xy[1] == nil || skip[strconv.Itoa(j)+":"+v] {
@@ -362,6 +372,9 @@ var viewWhat = map[string]string{
 	"ds": "left side built with separate objects per type name",
 	"ps": "left side printed and parsed back",
 	"sp": "right side printed and parsed back",
+	"ii": "both sides interned: one Go object per type, package singletons as leaves, sub-objects shared between terms",
+	"si": "right side interned (shared sub-objects, package singletons), left side with fresh objects per occurrence",
+	"is": "left side interned (shared sub-objects, package singletons), right side with fresh objects per occurrence",
 }
 
 // declText renders a declaration that uses t, for llvm-as (independent renderer).
@@ -642,6 +655,10 @@ func viewClass(v string) string {
 		return "shared objects"
 	case "sd", "ds":
 		return "separate objects per name"
+	case "ii":
+		return "interned objects (shared sub-objects, package singletons)"
+	case "si", "is":
+		return "interned against fresh objects"
 	}
 	return "after print+parse"
 }
@@ -662,7 +679,7 @@ func Run(tier, replay string) {
 	}
 	log.SetOutput(io.Discard)
 	rep := mbt.NewReport("C16", tier, "model_checking")
-	rep.Rule = "ordered pairs of distinct type terms of one universe on which the real types.Equal was recorded (5 views: shared / separate Go objects per type name, printed and parsed back on either side) and judged by TLC against the reference identity TypeEq"
+	rep.Rule = "ordered pairs of distinct type terms of one universe on which the real types.Equal was recorded (8 views: shared / separate Go objects per type name, printed and parsed back on either side, interned sub-objects and package singletons on both or one side) and judged by TLC against the reference identity TypeEq"
 	llvmoracle.Require()
 
 	if replay != "" {
@@ -737,6 +754,9 @@ func Run(tier, replay string) {
 	// (T) record the real Equal, judged by TLC
 	record(rep, unis, items, tier)
 
+	// histories: build, observe, mutate below, observe (spec/TypesMut.tla)
+	histories(rep, tier)
+
 	rep.Exhaustive = false
 	rep.Assumptions = []string{
 		"TLC evaluates TypeEq on the deserialised recording correctly; JSON transport of terms is faithful (tyutil)",
@@ -763,6 +783,7 @@ func runReplay(rep *mbt.Report, path string) {
 				Defs map[string]*tyutil.Body `json:"defs"`
 				A    *tyutil.Term            `json:"a"`
 				B    *tyutil.Term            `json:"b"`
+				Hist *history                `json:"history"`
 			} `json:"case"`
 		} `json:"failures"`
 	}
@@ -773,6 +794,16 @@ func runReplay(rep *mbt.Report, path string) {
 	unis := map[string]tyutil.Universe{}
 	var items []item
 	seen := map[string]bool{}
+	nh := 0
+	for _, f := range one.Failures {
+		if f.Case.Hist != nil {
+			replayHistory(rep, f.Case.Hist)
+			nh++
+		}
+	}
+	if nh > 0 {
+		return
+	}
 	for k, f := range one.Failures {
 		if f.Case.A == nil || f.Case.B == nil {
 			continue
